@@ -54,7 +54,22 @@ def _sf_counting_prefix(E, st, args, kw):
     return [('val', st, mk_bool(z3.ForAll([i], z3.Implies(z3.And(i >= 0, i < zint(k)), z3.BV2Int(zs[i]) == (i + 1) % 256))))]
 
 
-for _nm, _fn in (('conj', _sf_conj), ('disj', _sf_disj), ('imp', _sf_imp), ('counting_prefix', _sf_counting_prefix)):
+def _sf_writes_outside_lock(E, st, args, kw):
+    """writes_outside_lock(d0): number of heap writes of this execution made while no lock was held, d0 = number of locks the CALLER
+    holds at entry (a `requires lock held` of the function).  Lock enter / exit events of `with <lock>` are logged in the write log by
+    the engine (pseudo object -1).  C19: lazy initialisation of the curve registry."""
+    depth = args[0] if args else 0
+    n = 0
+    for oid, fld in st.writes:
+        if oid == -1:
+            depth += 1 if fld == '<lock+>' else -1
+        elif depth <= 0:
+            n += 1
+    return [('val', st, n)]
+
+
+for _nm, _fn in (('conj', _sf_conj), ('disj', _sf_disj), ('imp', _sf_imp), ('counting_prefix', _sf_counting_prefix),
+                 ('writes_outside_lock', _sf_writes_outside_lock)):
     _c.SPEC_FORMS.setdefault(_nm, _fn)
     _i.SPEC_BUILTINS.setdefault(_nm, _i.BuiltinV('spec.' + _nm, _fn))
 
